@@ -144,6 +144,19 @@ func newReplayEnv(n int) (*replayEnv, error) {
 				case "early":
 					w.Header().Set("Content-Length", "300000")
 					w.Write(make([]byte, 300000))
+				case "earlypart":
+					// the first part arrives, the rest does not (yet): the caller consumes
+					// everything that is buffered and closes the body - nothing unread sits in
+					// the transport's buffer, yet the response was not consumed
+					w.Header().Set("Content-Length", "5000")
+					w.Write(make([]byte, 1000))
+					if fl, ok := w.(http.Flusher); ok {
+						fl.Flush()
+					}
+					select {
+					case <-r.Context().Done():
+					case <-time.After(3 * time.Second):
+					}
 				default:
 					w.Header().Set("Content-Length", "2000")
 					w.Write(make([]byte, 2000))
@@ -205,6 +218,8 @@ type scenario struct {
 	reqs  []*rreq
 	gotMu sync.Mutex
 	gots  []gotInfo
+	// set by settle when a connection is idle and owned at once
+	ownedAndIdle string
 }
 
 func (sc *scenario) start(host int, mode string) *rreq {
@@ -227,12 +242,15 @@ func (sc *scenario) start(host int, mode string) *rreq {
 	go func() {
 		defer close(q.done)
 		rq := sc.cl.R().SetContext(httptrace.WithClientTrace(ctx, trace)).SetHeader("X-Req", fmt.Sprint(q.idx))
-		if mode == "early" {
+		if mode == "early" || mode == "earlypart" {
 			rq.DisableAutoReadResponse()
 		}
 		resp, err := rq.Get("http://" + addr + "/")
 		q.err = err
-		if err == nil && mode == "early" && resp.Response != nil && resp.Body != nil {
+		if err == nil && mode == "earlypart" && resp.Response != nil && resp.Body != nil {
+			io.ReadFull(resp.Body, make([]byte, 1000))
+			resp.Body.Close()
+		} else if err == nil && mode == "early" && resp.Response != nil && resp.Body != nil {
 			resp.Body.Close()
 		} else if err == nil && resp.Response != nil && resp.Body != nil {
 			io.Copy(io.Discard, resp.Body)
@@ -255,7 +273,27 @@ func (sc *scenario) settle(mustBeDone []*rreq, mustBeClosed []*trackedConn) (req
 	okStreak := 0
 	var snap req.VerifPoolSnap
 	for time.Now().Before(deadline) {
+		// connections known to be in use BEFORE the snapshot is taken (a request that was
+		// given a connection and whose origin has not been told to answer yet keeps it)
+		held := map[int]int{}
+		for _, q := range sc.reqs {
+			if g := q.got.Load(); g != nil && !q.finished && !q.isDone() {
+				held[g.Conn] = q.idx
+			}
+		}
 		snap = req.VerifPoolSnapshot(sc.cl.GetTransport())
+		for _, l := range snap.Idle {
+			for _, c := range l {
+				if tc, ok := c.(*trackedConn); ok {
+					if qi, isHeld := held[tc.id]; isHeld {
+						sc.ownedAndIdle = fmt.Sprintf("connection %d is in the idle pool while request %d, which was given it, is still waiting for its response", tc.id, qi)
+					}
+				}
+			}
+		}
+		if sc.ownedAndIdle != "" {
+			return snap, false
+		}
 		ok := true
 		for _, q := range mustBeDone {
 			if !q.isDone() {
@@ -385,17 +423,65 @@ func phaseReplay(cr *childResult, seed uint64, quick bool) {
 		return
 	}
 	defer env.close()
-	for i := 0; i < n; i++ {
-		runScenario(cr, rng.Fork(), env, i)
+	scripts := scriptedScenarios()
+	for i := 0; i < n+len(scripts); i++ {
+		var sp *scripted
+		if i < len(scripts) {
+			sp = &scripts[i]
+			cr.count("replay.scripted")
+		}
+		r := rng.Fork()
+		again := *r // the same operations once more
+		if !runScenario(cr, r, env, i, sp) {
+			cr.count("replay.retried")
+			if !runScenario(cr, &again, env, i, sp) {
+				// twice no quiescent point within 8 s after the same operation: requests hang
+				cr.fail(hk.Failure{Sig: "liveness:replay", What: "a deterministic pool scenario did not reach a quiescent point within 8 s, twice in a row (request blocked forever: lost wake-up or leaked per-host slot?)",
+					Input: map[string]interface{}{"scenario": i}})
+			}
+		}
 	}
 }
 
-func runScenario(cr *childResult, rng *hk.Rand, env *replayEnv, sidx int) {
+type scriptOp struct {
+	kind string // start | finish | cancel | closeidle | serverclose
+	host int
+	mode string
+	idx  int // request index for finish / cancel
+}
+
+type scripted struct {
+	cfg replayCfg
+	ops []scriptOp
+}
+
+// directed scenarios run before the random ones: several requests queued behind a busy
+// connection when it is released (late binding with >= 2 waiters), then a further request.
+func scriptedScenarios() []scripted {
+	st := func(h int) scriptOp { return scriptOp{kind: "start", host: h, mode: "keep"} }
+	fi := func(i int) scriptOp { return scriptOp{kind: "finish", idx: i} }
+	ca := func(i int) scriptOp { return scriptOp{kind: "cancel", idx: i} }
+	ci := scriptOp{kind: "closeidle"}
+	return []scripted{
+		{replayCfg{MaxIdle: 0, MaxIdleHost: 2, MaxHost: 1}, []scriptOp{st(0), st(0), st(0), fi(0), st(0), fi(1), fi(2), fi(3), st(0), fi(4)}},
+		{replayCfg{MaxIdle: 0, MaxIdleHost: 0, MaxHost: 1}, []scriptOp{st(0), st(0), st(0), st(0), fi(0), fi(1), st(0), fi(2), fi(3), fi(4)}},
+		{replayCfg{MaxIdle: 0, MaxIdleHost: 1, MaxHost: 2}, []scriptOp{st(0), st(0), st(0), st(0), st(0), fi(1), fi(0), st(0), fi(2), fi(3), fi(4), fi(5)}},
+		{replayCfg{MaxIdle: 1, MaxIdleHost: 2, MaxHost: 1}, []scriptOp{st(0), st(1), st(0), st(0), st(1), fi(0), fi(1), ci, fi(2), st(0), fi(3), fi(4), fi(5)}},
+		{replayCfg{MaxIdle: 0, MaxIdleHost: 2, MaxHost: 1}, []scriptOp{st(0), st(0), st(0), st(0), ca(2), fi(0), st(0), fi(1), fi(3), fi(4)}},
+		{replayCfg{MaxIdle: 0, MaxIdleHost: 2, MaxHost: 2}, []scriptOp{st(0), st(0), st(0), st(0), st(0), fi(0), fi(1), ci, st(0), fi(2), fi(3), fi(4), fi(5)}},
+	}
+}
+
+func runScenario(cr *childResult, rng *hk.Rand, env *replayEnv, sidx int, sp *scripted) (settled bool) {
 	cfg := replayCfg{
 		MaxIdle:     hk.Pick(rng, []int{0, 1, 2, 100}),
 		MaxIdleHost: hk.Pick(rng, []int{0, 0, 1, 2, 3, -1}),
 		MaxHost:     hk.Pick(rng, []int{0, 1, 1, 2, 3}),
 		NoKeepAlive: rng.Chance(8),
+	}
+	var script []scriptOp
+	if sp != nil {
+		cfg, script = sp.cfg, sp.ops
 	}
 	tr := &tracker{hostOf: map[string]int{}, failing: map[int]bool{2: true}}
 	sc := &scenario{env: env, tr: tr, cfg: cfg}
@@ -426,7 +512,7 @@ func runScenario(cr *childResult, rng *hk.Rand, env *replayEnv, sidx int) {
 	nontrivial := false
 	nOps := rng.Range(5, 14)
 	opCount := 0
-	unsettled := false
+	unsettled, skipped := false, false
 	record := func(opCoq string, opDesc interface{}, snap req.VerifPoolSnap, ok bool) {
 		if !ok {
 			unsettled = true
@@ -481,23 +567,55 @@ func runScenario(cr *childResult, rng *hk.Rand, env *replayEnv, sidx int) {
 			alive, hasBody, eof = false, true, true
 		case "empty":
 			alive, hasBody, eof = true, false, false
-		case "early":
+		case "early", "earlypart":
 			alive, hasBody, eof = true, true, false
 		}
 		cr.count("replay.op=finish-" + q.mode)
 		record(fmt.Sprintf("OFinish %d (mkRecycle %s %s %s false true)", q.idx, hk.CoqBool(alive), hk.CoqBool(hasBody), hk.CoqBool(eof)),
 			map[string]interface{}{"finish": q.idx, "mode": q.mode}, snap, ok)
 	}
+	if script != nil {
+		nOps = len(script)
+	}
 	for step := 0; step < nOps && !unsettled; step++ {
 		inf, blk := inflight(), blocked()
-		k := rng.Intn(100)
-		switch {
-		case k < 45 && len(inf)+len(blk) < 4:
-			host := rng.Intn(2)
-			if rng.Chance(10) {
-				host = 2
+		// choose the operation: scripted, or random
+		choice, host, mode := "", 0, ""
+		var target *rreq
+		if script != nil {
+			so := script[step]
+			choice, host, mode = so.kind, so.host, so.mode
+			if choice == "finish" || choice == "cancel" {
+				if so.idx >= len(sc.reqs) || sc.reqs[so.idx].isDone() || sc.reqs[so.idx].finished {
+					continue
+				}
+				target = sc.reqs[so.idx]
+				if (choice == "finish") != (target.got.Load() != nil) {
+					continue // scripted for the other state of this request: skip the step
+				}
 			}
-			mode := hk.Pick(rng, []string{"keep", "keep", "keep", "close", "empty", "early"})
+		} else {
+			k := rng.Intn(100)
+			switch {
+			case k < 45 && len(inf)+len(blk) < 4:
+				choice = "start"
+				host = rng.Intn(2)
+				if rng.Chance(10) {
+					host = 2
+				}
+				mode = hk.Pick(rng, []string{"keep", "keep", "keep", "close", "empty", "early", "earlypart"})
+			case k < 80 && len(inf) > 0:
+				choice, target = "finish", hk.Pick(rng, inf)
+			case k < 88 && len(blk) > 0:
+				choice, target = "cancel", hk.Pick(rng, blk)
+			case k < 94:
+				choice = "closeidle"
+			default:
+				choice, host = "serverclose", rng.Intn(2)
+			}
+		}
+		switch choice {
+		case "start":
 			q := sc.start(host, mode)
 			var must []*rreq
 			if host == 2 {
@@ -508,22 +626,24 @@ func runScenario(cr *childResult, rng *hk.Rand, env *replayEnv, sidx int) {
 			snap, ok := sc.settle(must, nil)
 			cr.count("replay.op=start")
 			record(fmt.Sprintf("OStart %d", host), map[string]interface{}{"start": q.idx, "host": host, "mode": mode}, snap, ok)
-		case k < 80 && len(inf) > 0:
-			finish(hk.Pick(rng, inf))
-		case k < 88 && len(blk) > 0:
-			q := hk.Pick(rng, blk)
+		case "finish":
+			if len(blk) >= 2 {
+				cr.count("replay.finish_with>=2_waiters")
+			}
+			finish(target)
+		case "cancel":
+			q := target
 			q.finished = true
 			q.cancel()
 			snap, ok := sc.settle([]*rreq{q}, nil)
 			cr.count("replay.op=cancel")
 			record(fmt.Sprintf("OCancel %d", q.idx), map[string]interface{}{"cancel": q.idx}, snap, ok)
-		case k < 94:
+		case "closeidle":
 			t.CloseIdleConnections()
 			snap, ok := sc.settle(nil, nil)
 			cr.count("replay.op=closeidle")
 			record("OCloseIdle", "CloseIdleConnections", snap, ok)
-		default:
-			host := rng.Intn(2)
+		case "serverclose":
 			pre := req.VerifPoolSnapshot(t)
 			var victims []*trackedConn
 			h := env.hosts[host]
@@ -539,7 +659,9 @@ func runScenario(cr *childResult, rng *hk.Rand, env *replayEnv, sidx int) {
 				}
 			}
 			if len(victims) != len(pre.Idle[sc.keys[host]]) {
-				unsettled = true
+				// the origin has not registered the connection yet: give the scenario up
+				// (harness-side skew, nothing to do with the pool)
+				unsettled, skipped = true, true
 				break
 			}
 			snap, ok := sc.settle(nil, victims)
@@ -555,15 +677,25 @@ func runScenario(cr *childResult, rng *hk.Rand, env *replayEnv, sidx int) {
 		}
 		finish(inf[0])
 	}
+	if sc.ownedAndIdle != "" {
+		cr.fail(hk.Failure{Sig: "exclusive:replay:idle-and-owned", What: "an HTTP/1.1 connection is handed to a request and sits in the idle pool at the same time: " + sc.ownedAndIdle,
+			Input: map[string]interface{}{"cfg": cfg, "ops": descOps}})
+		return true
+	}
+	if skipped {
+		cr.count("replay.skipped")
+		return true
+	}
 	if unsettled {
 		cr.count("replay.unsettled")
 		if len(cr.Notes) < 5 {
 			cr.Notes = append(cr.Notes, fmt.Sprintf("replay scenario %d: no quiescent point within 8 s (skipped) cfg=%+v ops=%v", sidx, cfg, descOps))
 		}
-		return
+		return false
 	}
 	cr.count(fmt.Sprintf("replay.maxhost=%d", cfg.MaxHost))
 	cr.count(fmt.Sprintf("replay.maxidlehost=%d", cfg.MaxIdleHost))
 	coq := fmt.Sprintf("ReplayCase %s [0; 1; 2] [2] %s", cfg.coq(), hk.CoqList(steps))
 	cr.add(coq, map[string]interface{}{"kind": "replay", "cfg": cfg, "steps": descOps}, coq, nontrivial && opCount >= 6)
+	return true
 }
